@@ -35,7 +35,7 @@ int main(int argc,char**argv){
   for(char *s=strtok(argv[1],"/"); s && nprog<MAXTH; s=strtok(0,"/")) prog[nprog++]=s;
   for(int i=0;i<NE;i++){ E[i].key=EK[i]; cds_lfht_node_init(&E[i].n); }
   ht=_cds_lfht_new(2,1,4,0,&cds_lfht_mm_order,&vflavor,NULL);
-  vs_region(&ht->size,sizeof ht->size,"size"); vs_region(E,sizeof E,"E"); vs_region(ht,sizeof *ht,"ht"); vs_region(ht->tbl_order[0],16*1,"b0"); vs_region(ht->tbl_order[1],16,"b1");
+  vs_region(&ht->size,sizeof ht->size,"size"); vs_region(E,sizeof E,"E"); vs_plain_track(E,sizeof E);   /* effective in the build with instrumented plain stores */ vs_region(ht,sizeof *ht,"ht"); vs_region(ht->tbl_order[0],16*1,"b0"); vs_region(ht->tbl_order[1],16,"b1");
   vs_strict=0;
   for(int i=0;i<nprog;i++) vs_spawn(body);
   vs_run(argv[2]);
